@@ -162,30 +162,55 @@ func init() {
 	reg("C09", "C09.4", "T5,T8", "full-state encoders serialise every entry, under the read lock", func(o *Ob) {
 		e := o.E
 		mb := o.Fn("(am/silence.state).MarshalBinary")
-		mc := o.One(e.Calls(mb, "am/silence.marshalMeshSilence"), "enc-call", "state.MarshalBinary must marshal entries with marshalMeshSilence", mb)
+		// each entry is encoded length-delimited into what is returned: through marshalMeshSilence + Write, or
+		// by marshalling a prepared copy of the entry straight into the returned buffer
+		var mc ssa.CallInstruction
+		var errLit LitM
+		var written ssa.Instruction
+		if cs := e.Calls(mb, "am/silence.marshalMeshSilence"); len(cs) == 1 {
+			mc = cs[0]
+			o.Check(strings.HasPrefix(e.Arg(mc, 0), "next(range(recv))#2"), "enc-arg", "the encoder must marshal the ranged entry", mc)
+			errLit = L("(am/silence.marshalMeshSilence(next(range(recv))#2)#1 == nil)", false)
+			wr := e.Calls(mb, "(*bytes.Buffer).Write")
+			o.Require(len(wr) == 1, "enc-write", "the encoder must append each marshalled entry to the buffer", nil)
+			o.Check(e.Arg(wr[0], 1) == "am/silence.marshalMeshSilence(next(range(recv))#2)#0", "enc-write-arg", "the bytes written must be the marshalled entry", wr[0])
+			written = wr[0]
+		} else {
+			mt := o.One(e.Calls(mb, "google.golang.org/protobuf/encoding/protodelim.MarshalTo"), "enc-call", "state.MarshalBinary must marshal every entry (marshalMeshSilence, or protodelim.MarshalTo into the result)", mb)
+			mc, written = mt, mt
+			errLit = L("("+e.X(mb, mt.(*ssa.Call))+"#1 == nil)", false)
+			// the message is a copy of the ranged entry: its silence cloned and prepared, its expiry taken over
+			fromEntry := e.DerivesFrom(e.ArgV(mt, 1), true, func(v ssa.Value) bool {
+				_, ok := v.(*ssa.Next)
+				return ok
+			})
+			o.Check(fromEntry, "enc-arg", "the encoder must marshal the ranged entry", mt)
+			o.Check(len(e.Calls(mb, "am/silence.cloneSilence")) >= 1 && len(e.Calls(mb, "am/silence.prepareSilenceForMarshalling")) >= 1, "enc-copy", "the entry must be marshalled from a prepared copy (the stored silence must not be modified, legacy fields must be filled)", mt)
+			// and it goes into the buffer whose bytes are returned
+			for _, ret := range (&Walk{Fn: mb}).FromEntry().Returns() {
+				if e.X(mb, ret.Results[1]) != "nil" {
+					continue
+				}
+				o.Check(strings.Contains(e.X(mb, ret.Results[0]), "(*bytes.Buffer).Bytes("+e.Arg(mt, 0)+")"), "enc-write-arg", "the bytes returned are not those of the buffer the entries are marshalled into", ret)
+			}
+		}
 		l := e.LoopOf(mc)
 		o.Require(l != nil, "enc-loop", "entries are not marshalled in a loop", mc)
 		coll, kind := e.RangeOver(l)
 		o.Check(coll == "recv" && kind == "iter", "enc-range", "the encoder must range over the whole state, ranges over "+coll, mc)
-		o.Check(strings.HasPrefix(e.Arg(mc, 0), "next(range(recv))#2"), "enc-arg", "the encoder must marshal the ranged entry", mc)
 		o.Site(mc, "marshal each entry")
 		// the only early exit is the error return
-		errLit := L("(am/silence.marshalMeshSilence(next(range(recv))#2)#1 == nil)", false)
 		o.LoopExitsGuarded(l, "enc-early-exit", "leaving the encoder loop early is only allowed on a marshal error", errLit)
-		// each iteration writes the bytes
-		wr := e.Calls(mb, "(*bytes.Buffer).Write")
-		o.Require(len(wr) == 1, "enc-write", "the encoder must append each marshalled entry to the buffer", nil)
-		o.Check(e.Arg(wr[0], 1) == "am/silence.marshalMeshSilence(next(range(recv))#2)#0", "enc-write-arg", "the bytes written must be the marshalled entry", wr[0])
 		{
 			bi, _ := l.BodyEntry()
-			r := (&Walk{Fn: mb, Barrier: IsInstr(wr[0])}).FromEdge(l.Header, bi)
+			r := (&Walk{Fn: mb, Barrier: IsInstr(written)}).FromEdge(l.Header, bi)
 			back := false
 			for _, be := range l.Back {
 				if r.Edge[be] {
 					back = true
 				}
 			}
-			o.Check(!back, "enc-skip", "an entry can be skipped by the encoder", wr[0])
+			o.Check(!back, "enc-skip", "an entry can be skipped by the encoder", written)
 		}
 		for _, name := range []string{"(*am/silence.Silences).MarshalBinary", "(*am/silence.Silences).Snapshot"} {
 			fn := o.Fn(name)
